@@ -4,18 +4,14 @@ import json, os
 ROOT = os.path.dirname(os.path.dirname(os.path.abspath(__file__)))
 ALL = ["C%02d" % i for i in range(1, 21)]
 
-CLAIMED = {
- "C01": dict(
-   technique="TLA+ Gregorian walk model checked by TLC (+ Apalache unbounded lemmas); TLC-generated 400-year cycle table tiled over all 2e8 days and replayed into the real API; TLC trace validation of seeded date sessions",
-   text="TLC model-checks the Gregorian walk spec (one full 400-year cycle and windows at both range ends, year 0 and the epoch) against closed forms, ISO-week and ordering invariants; Apalache proves round trip, successor and 400-year periodicity for all integer years (thorough). The TLC-generated cycle table is tiled over the range and every day (thorough: all 200 000 005 days incl. two outside each end; quick: 23 of 1370 cycles) is stepped through ~25 public calls and the kernel hooks; seeded sessions over the whole range are validated as behaviours of the DateArith spec by TLC.",
-   note="Trusted: TLC/Apalache, the JSON projection glue (harness/src/proj.rs, js.rs), harness i128 arithmetic for n*86400e9, periodicity lemma used for tiling (checked by TLC on one period, by Apalache for all years).",
-   ref="DESIGN.md §5 C01"),
- "C04": dict(
-   technique="TLA+ DateArith spec (AddISODate/DifferenceISODate) model checked by TLC; all transitions of the bounded instance replayed into PlainDate add/subtract/until/since; TLC trace validation of seeded full-range sessions",
-   text="TLC checks on the DateArith model the inverse law add(until)=end for every largest unit, closed form = literal Temporal loops, balancedness, sign uniformity, day-distance, subtract=add(negated), reject rule, for all ordered pairs of a window with a leap and a common February, month ends and year changes (and a window around year 0). Every one of those transitions (quick 223k, thorough 8.5M) is replayed through the real API comparing all ten duration fields / dates / error kinds; seeded sessions over the whole range with mixed-unit and huge durations are accepted or rejected by TLC against the same spec.",
-   note="Trusted: TLC, projection glue (proj.rs/js.rs). The spec is my transcription of Temporal's AddISODate/DifferenceISODate; its closed form is checked against the literal candidate loops on the model.",
-   ref="DESIGN.md §5 C04"),
-}
+def load_claims():
+    import glob
+    out = {}
+    for f in sorted(glob.glob(os.path.join(ROOT, "vc", "claims", "C*.json"))):
+        out[os.path.splitext(os.path.basename(f))[0]] = json.load(open(f))
+    return out
+
+CLAIMED = load_claims()
 NOT_YET = "check not built yet in this revision (build order in DESIGN.md §10); will be claimed once its TLA+ module and conformance harness exist"
 
 def main():
